@@ -98,11 +98,12 @@ func (w *world) value(c *schema.Case, op *schema.Op, tag string, alt bool) value
 	case "any":
 		return ir.NewParam(tag, t)
 	case "const":
-		if op.Slot == "Indices" { // constant struct index: must stay a valid field number
-			if alt {
-				return constant.NewInt(types.I32, 0)
+		if op.CV >= 0 { // constant struct index of a getelementptr: must stay a valid field number
+			it := t.(*types.IntType)
+			if alt && (c.Cls == "struct" || c.Cls == "nstruct") && op.CV == 1 {
+				return constant.NewInt(it, 0)
 			}
-			return constant.NewInt(types.I32, 1)
+			return constant.NewInt(it, int64(op.CV)) // a fresh object with the same text where no other index is valid
 		}
 		return w.constOf(t, w.n, tag)
 	case "block":
@@ -145,6 +146,10 @@ func (w *world) value(c *schema.Case, op *schema.Op, tag string, alt bool) value
 func (w *world) markers(c *schema.Case) []value.Value {
 	out := make([]value.Value, len(c.Ops))
 	for i := range c.Ops {
+		if i < len(c.Alias) && c.Alias[i] != i+1 {
+			out[i] = out[c.Alias[i]-1] // the "alias" family: two operands hold the same value (repeated branch target)
+			continue
+		}
 		out[i] = w.value(c, &c.Ops[i], "m"+strconv.Itoa(i+1), false)
 	}
 	return out
@@ -334,7 +339,11 @@ func (ck *checker) checkCase(c *schema.Case) {
 	}
 	// successors
 	if t, ok := u.(ir.Terminator); ok {
-		ck.checkSuccs(t, c, w, ms)
+		ck.checkSuccs(t, c, w, ms, slotOf)
+	}
+	// direct edits of the operand fields between calls of Operands() / Succs()
+	if c.Fam == "config" {
+		ck.checkEdits(c)
 	}
 }
 
@@ -362,7 +371,7 @@ func sameBlocks(a, b []*ir.Block) bool {
 	return true
 }
 
-func (ck *checker) checkSuccs(t ir.Terminator, c *schema.Case, w *world, ms []value.Value) {
+func (ck *checker) checkSuccs(t ir.Terminator, c *schema.Case, w *world, ms []value.Value, slotOf []int) {
 	want := []*ir.Block{}
 	for _, s := range c.Succs {
 		want = append(want, ms[s-1].(*ir.Block))
@@ -374,7 +383,11 @@ func (ck *checker) checkSuccs(t ir.Terminator, c *schema.Case, w *world, ms []va
 	}
 	ck.rep.Count("succs:"+c.ID(), len(want) > 0)
 	if !sameBlocks(got, want) {
-		ck.fail("C15|succs|"+c.Kind+"|differs-from-targets", fmt.Sprintf("%s: Succs() = %s, the branch targets in order are %s", c.Kind, blockNames(got), blockNames(want)), c)
+		cls := "differs-from-targets"
+		if len(got) < len(want) && c.Fam == "alias" {
+			cls = "repeated-target-dropped"
+		}
+		ck.fail("C15|succs|"+c.Kind+"|"+cls, fmt.Sprintf("%s: Succs() = %s, the branch targets in order (with multiplicity) are %s", c.Kind, blockNames(got), blockNames(want)), c)
 		return
 	}
 	for _, b := range got {
@@ -382,50 +395,59 @@ func (ck *checker) checkSuccs(t ir.Terminator, c *schema.Case, w *world, ms []va
 			ck.fail("C15|succs|"+c.Kind+"|foreign-block", fmt.Sprintf("%s: successor %s does not belong to the function", c.Kind, b.Ident()), c)
 		}
 	}
-	// after a write through the slot of a target: with and without an earlier Succs() call
+	// after a write through the slot of a target -- a fresh block, or another target that is
+	// already in the list (successors are a list with multiplicity) -- with and without an
+	// earlier Succs() call
 	for n, s := range c.Succs {
 		for _, primed := range []bool{false, true} {
-			w2 := newWorld()
-			ms2 := w2.markers(c)
-			u2, _, p := build(w2, c, ms2)
-			if p {
-				continue
-			}
-			t2 := u2.(ir.Terminator)
-			if primed {
-				t2.Succs()
-			}
-			nb := w2.F.NewBlock("fresh")
-			wrote := false
-			for _, sl := range u2.Operands() {
-				if sl != nil && same(*sl, ms2[s-1]) {
-					*sl = nb
-					wrote = true
-					break
+			for src := -1; src < len(c.Succs); src++ { // -1: a fresh block; else: the block of another target
+				if src == n || slotOf[s-1] < 0 {
+					continue
 				}
-			}
-			if !wrote {
-				continue
-			}
-			want2 := []*ir.Block{}
-			for _, s2 := range c.Succs {
-				want2 = append(want2, ms2[s2-1].(*ir.Block))
-			}
-			want2[n] = nb
-			var got2 []*ir.Block
-			if msg, p := mbt.Guard(func() { got2 = t2.Succs() }); p {
-				ck.fail("C15|succs|"+c.Kind+"|panic-after-write", "Succs() panics after a write: "+msg, c)
-				continue
-			}
-			ck.rep.Count(fmt.Sprintf("succs-after-write:%s:%d:%v", c.ID(), n, primed), true)
-			if !sameBlocks(got2, want2) {
-				cls := "wrong-after-write"
+				w2 := newWorld()
+				ms2 := w2.markers(c)
+				u2, _, p := build(w2, c, ms2)
+				if p {
+					continue
+				}
+				t2 := u2.(ir.Terminator)
 				if primed {
-					cls = "stale-after-write"
+					t2.Succs()
 				}
-				txt, _, _ := text(u2)
-				ck.fail("C15|succs|"+c.Kind+"|"+cls, fmt.Sprintf("%s: after writing %%fresh through the slot of %s (Succs() called before: %v) Succs() = %s but the instruction prints %q (targets %s)",
-					c.Kind, c.Ops[s-1].Key(), primed, blockNames(got2), txt, blockNames(want2)), c)
+				var nb *ir.Block
+				if src < 0 {
+					nb = w2.F.NewBlock("fresh")
+				} else {
+					nb = ms2[c.Succs[src]-1].(*ir.Block)
+				}
+				ops2 := u2.Operands()
+				if slotOf[s-1] >= len(ops2) || ops2[slotOf[s-1]] == nil {
+					continue
+				}
+				*ops2[slotOf[s-1]] = nb
+				want2 := []*ir.Block{}
+				for _, s2 := range c.Succs {
+					want2 = append(want2, ms2[s2-1].(*ir.Block))
+				}
+				want2[n] = nb
+				var got2 []*ir.Block
+				if msg, p := mbt.Guard(func() { got2 = t2.Succs() }); p {
+					ck.fail("C15|succs|"+c.Kind+"|panic-after-write", "Succs() panics after a write: "+msg, c)
+					continue
+				}
+				ck.rep.Count(fmt.Sprintf("succs-after-write:%s:%d:%d:%v", c.ID(), n, src, primed), true)
+				if !sameBlocks(got2, want2) {
+					cls := "wrong-after-write"
+					if primed {
+						cls = "stale-after-write"
+					}
+					if src >= 0 && len(got2) < len(want2) {
+						cls = "repeated-target-dropped"
+					}
+					txt, _, _ := text(u2)
+					ck.fail("C15|succs|"+c.Kind+"|"+cls, fmt.Sprintf("%s: after writing %s through the slot of %s (Succs() called before: %v) Succs() = %s but the instruction prints %q (targets %s)",
+						c.Kind, nb.Ident(), c.Ops[s-1].Key(), primed, blockNames(got2), txt, blockNames(want2)), c)
+				}
 			}
 		}
 	}
